@@ -360,7 +360,7 @@ pub fn bb_case(p: BbParams) -> impl Strategy<Value = BbCase> {
             let exit_code = (0..n)
                 .map(|i| {
                     if p.failures && graph.targets[i].kind == Kind::Build && fail[i] >= 215 {
-                        [1u8, 2, 3, 126, 127, 130, 255, 254, 254][(fail[i] as usize) % 9]
+                        [1u8, 254, 2, 254, 3, 126, 254, 127, 130, 255, 254][(fail[i] as usize) % 11]
                     } else {
                         0
                     }
